@@ -162,6 +162,8 @@ def result_lambdas(arm, prog=None, kind=None, subject=None):
 
 
 def check(prog, rep):
+    from . import pitfalls as _pit
+    rep.section(_pit.report, prog, rep, 'R01.P', ['src/optyx/core/compiler.py', 'src/optyx/core/expressions.py'], ('P1', 'P3'))
     (rec, drec), (it, dit) = evaluator_builders(prog)
     rep.saw("evaluator builders", [rec.qual, it.qual])
     kinds = prog.expression_kinds()
